@@ -19,6 +19,9 @@ fn process_commands(
         if clean_command != "" {
             match process_request(clean_command, dbs, client) {
                 Response::Error { msg } => {
+                    // a refused command may also have queued its refusal for the client:
+                    // this entry reports it, so it must not be taken for the next reply
+                    while let Ok(Some(_)) = receiver.try_next() {}
                     responses.push(msg.clone());
                     log::debug!("Http response Error: {}", msg);
                 }
@@ -32,6 +35,7 @@ fn process_commands(
                     change: _,
                     db: _,
                 } => {
+                    while let Ok(Some(_)) = receiver.try_next() {}
                     responses.push(msg.clone());
                     log::debug!("Http response Error: {}", msg);
                 }
